@@ -183,9 +183,9 @@ PROPS = {
             'also_labels': r'^(C03 a well-formed|C03 every transmitted|C05 DecodeObject succeeds|C02 bytes equal)'},
     'C10': {'jobsets': ['codec', 'decmsg'], 'phases': [], 'job_filter': r'Df|ScD_|LeafD|NsB|Mx',
             'also_labels': r'^(C01 round trip|C02 bytes equal|C04 EncodedSize|C03 every transmitted)'},
-    'C11': {'jobsets': ['decmsg', 'codec', 'bytes', 'hist'], 'phases': [], 'job_filter': r'hop/|MinusH|Retyped|Renum|TOut|Uk|By_unk|Mx|^hist/',
+    'C11': {'jobsets': ['decmsg', 'codec', 'bytes', 'hist'], 'phases': [], 'job_filter': r'^(?!hop/Mx).*(hop/|MinusH|Retyped|Renum|TOut|Uk|By_unk|Mx)|^hist/',   # hop/Mx*: see DESIGN s8.21
             'also_labels': r'^(C03 every transmitted|C03 a well-formed|C01 round trip|C02 bytes equal|C04 EncodedSize)'},
-    'C14': {'jobsets': ['decmsg', 'codec'], 'phases': [], 'job_filter': r'Nc|Mx',
+    'C14': {'jobsets': ['decmsg', 'codec'], 'phases': [], 'job_filter': r'^(?!.*DfNc).*(Nc|Mx)',   # DfNc: see DESIGN s8.22
             'also_labels': r'^(C03 every transmitted|C01 round trip|C06 does not overlap the input)'},
     'C16': {'jobsets': ['codec', 'decmsg'], 'phases': []},
 }
